@@ -156,7 +156,54 @@ def _b_all(eng, args, kwargs):
     return models._b_all(eng, args, kwargs)
 
 
+# ---------------------------------------------------------------------------------------------------------------
+# np.count_nonzero, rank / select view (the model of pyvc/ext_C08.count_rs without its cross-mask clause), active only for a
+# carrier whose contract sets options["count_model"] = "rank-select"
+def count_rs(eng, mask):
+    """cnt(i) = number of True entries of `mask` below i (rank), pos(k) = position of the k-th True entry (select).
+    Assumed facts (theorems about counting the True entries of a finite boolean sequence):
+      cnt(0) = 0; cnt(i+1) = cnt(i) + [mask[i]]; 0 <= cnt(i) <= i; cnt monotone;
+      for 0 <= k < cnt(i):  0 <= pos(k) < i, mask[pos(k)], cnt(pos(k)) = k."""
+    key = ("cnt-rs6", mask.arr.get_id())
+    hit = eng.ghost.get(key)
+    if hit is None:
+        eng.assumptions.add("numpy-model:np.count_nonzero (rank/select: unfolding, monotone rank, k-th True position exists)")
+        tag = fresh_name("cnt")
+        f, pos = z3.Function(tag, I, I), z3.Function(tag + "_pos", I, I)
+        i, j, k = z3.Int("i_" + tag), z3.Int("j_" + tag), z3.Int("k_" + tag)
+        b = lambda t: z3.If(to_z3(mask.get(t), "bool"), 1, 0)
+        eng.assume(f(0) == 0)
+        eng.assume(z3.ForAll([i], z3.Implies(i >= 0, f(i + 1) == f(i) + b(i)), patterns=[f(i + 1)]))
+        eng.assume(z3.ForAll([i], z3.Implies(i >= 0, z3.And(f(i) >= 0, f(i) <= i)), patterns=[f(i)]))
+        eng.assume(z3.ForAll([i, j], z3.Implies(z3.And(0 <= i, i <= j), f(i) <= f(j)), patterns=[z3.MultiPattern(f(i), f(j))]))
+        eng.assume(z3.ForAll([k, i], z3.Implies(z3.And(0 <= k, k < f(i), i >= 0),
+                                                z3.And(0 <= pos(k), pos(k) < i, to_z3(mask.get(pos(k)), "bool"), f(pos(k)) == k)),
+                             patterns=[z3.MultiPattern(pos(k), f(i))]))
+        hit = (f, pos, mask)
+        eng.ghost[key] = hit
+        eng.ghost.setdefault("cnt-rs6-all", []).append(hit)
+    return Sym(hit[0](mask.nz()), "int")
+
+
+_prev_count = [None]
+
+
+def _np_count_nonzero(eng, args, kwargs):
+    if getattr(eng, "count_model", None) == "rank-select" and len(args) == 1 and not kwargs and isinstance(args[0], SArr) and args[0].kind == "bool":
+        return count_rs(eng, args[0])
+    if _prev_count[0] is not None:
+        return _prev_count[0](eng, args, kwargs)
+    from . import npmodels
+
+    return npmodels._np_count_nonzero(eng, args, kwargs)
+
+
 def install():
+    import numpy as np
+
     models.EXTRA_MODELS[set] = _b_set
     models.EXTRA_MODELS[any] = _b_any
     models.EXTRA_MODELS[all] = _b_all
+    if models.EXTRA_MODELS.get(np.count_nonzero) is not _np_count_nonzero:
+        _prev_count[0] = models.EXTRA_MODELS.get(np.count_nonzero)
+        models.EXTRA_MODELS[np.count_nonzero] = _np_count_nonzero
